@@ -1015,8 +1015,8 @@ func runCrashPoints(r *ev.Run) {
 			imgs = imgs[:0]
 			r.Add("statement_crash_points", int64(points))
 			r.Eval(fmt.Sprintf("crash-points/len=%d", len(prefix)))
-			if points < 5 {
-				panic("crash-point engine error: handler executed without scheduling points")
+			if points == 0 {
+				panic("crash-point engine error: handler executed without scheduling points (instrumentation missing)")
 			}
 			s.Close()
 		}
